@@ -6,7 +6,8 @@ CellsQuick == {
   C(<<8,0,0>>, <<0,12,0>>, <<0,0,4>>, <<-4,4,8>>),         \* orthorhombic, origin # 0
   C(<<8,0,0>>, <<4,8,0>>, <<0,4,8>>, <<2,-6,0>>),          \* mildly tilted
   C(<<8,0,0>>, <<8,8,0>>, <<0,8,8>>, <<0,0,0>>),           \* tilt = cell length
-  C(<<8,4,0>>, <<-4,8,4>>, <<0,4,12>>, <<1,1,1>>)          \* not LAMMPS oriented
+  C(<<8,4,0>>, <<-4,8,4>>, <<0,4,12>>, <<1,1,1>>),         \* not LAMMPS oriented
+  C(<<16,0,0>>, <<12,4,0>>, <<4,4,8>>, <<-4,0,4>>)         \* thin and strongly tilted: b - a is shorter than every cell vector
 }
 CellsThorough == CellsQuick \cup {
   C(<<8,0,0>>, <<12,8,0>>, <<0,0,8>>, <<0,0,0>>),          \* tilt > cell length
